@@ -315,7 +315,99 @@ func runPloop(b block) {
 	fmt.Fprintf(out, "%s solutions %d\n", b.id, nsol)
 }
 
+// aloop: the real parallel solver handed K scripted START SOLUTIONS (scores) and a budget of exactly K runs of
+// a iterations each (one run at a time, deterministic mode): run r pops start solution K-r and its scripted
+// operator leaves the listed work scores.  Observable: the scores delivered on the result channel.
+// Model: ainit / arecv over the concatenation of the runs' srun outputs.
+//
+//	astarts s0 s1 ... ; arun w1 w2 ... (one line per run, in run order)
+func runAloop(b block) {
+	defer func() {
+		if r := recover(); r != nil {
+			fmt.Fprintf(out, "%s PANIC %v\n", b.id, r)
+		}
+	}()
+	ctx := context.Background()
+	model, err := sloopModel()
+	if err != nil {
+		fmt.Fprintf(out, "%s build error %v\n", b.id, err)
+		return
+	}
+	var starts []int
+	var runsW [][]int
+	for _, fs := range b.lines {
+		var l []int
+		for _, x := range fs[1:] {
+			v, _ := strconv.Atoi(x)
+			l = append(l, v)
+		}
+		switch fs[0] {
+		case "astarts":
+			starts = l
+		case "arun":
+			runsW = append(runsW, l)
+		}
+	}
+	a := 1
+	for _, l := range runsW {
+		if len(l) > a {
+			a = len(l)
+		}
+	}
+	ps, err := nextroute.NewSkeletonParallelSolver(model)
+	if err != nil {
+		fmt.Fprintf(out, "%s solver error %v\n", b.id, err)
+		return
+	}
+	ps.SetSolverFactory(func(info nextroute.ParallelSolveInformation, _ nextroute.Solution) (nextroute.Solver, error) {
+		sv, err := nextroute.NewSkeletonSolver(model)
+		if err != nil {
+			return nil, err
+		}
+		op := &scriptedOperator{cur: -1}
+		if r := info.Run() - 1; r >= 0 && r < len(runsW) {
+			for _, w := range runsW[r] {
+				op.execs = append(op.execs, scriptedExec{canImprove: true, work: w})
+			}
+		}
+		sv.AddSolveOperators(op)
+		return sv, nil
+	})
+	ps.SetSolveOptionsFactory(func(nextroute.ParallelSolveInformation) (nextroute.SolveOptions, error) {
+		return nextroute.SolveOptions{Iterations: a, Duration: time.Minute}, nil
+	})
+	var sols []nextroute.Solution
+	for _, x := range starts {
+		sol, err := solutionWithScore(ctx, model, x)
+		if err != nil {
+			fmt.Fprintf(out, "%s start error %v\n", b.id, err)
+			return
+		}
+		sols = append(sols, sol)
+	}
+	ch, err := ps.Solve(ctx, nextroute.ParallelSolveOptions{Iterations: a * len(runsW), Duration: 20 * time.Second, ParallelRuns: 1,
+		StartSolutions: 0, RunDeterministically: true}, sols...)
+	if err != nil {
+		fmt.Fprintf(out, "%s solve error %v\n", b.id, err)
+		return
+	}
+	var sent []string
+	for si := range ch {
+		if si.Error != nil {
+			fmt.Fprintf(out, "%s channel error %v\n", b.id, si.Error)
+			return
+		}
+		sent = append(sent, strconv.Itoa(int(si.Solution.Score())))
+	}
+	fmt.Fprintf(out, "%s delivered %s\n", b.id, strings.Join(sent, " "))
+}
+
 func init() {
+	commands["aloop"] = func(path string, _ []string) {
+		for _, b := range readCases(path) {
+			runAloop(b)
+		}
+	}
 	commands["ploop"] = func(path string, _ []string) {
 		for _, b := range readCases(path) {
 			runPloop(b)
